@@ -2,9 +2,13 @@
   C17 — Validation reports exactly the failing fields and rules, after a full load.
 
   PROPERTY THEOREMS ONLY (helpers: BSVerif/Valid/Lemmas.lean). Quantifiers: ALL classes (any number of
-  fields of the modelled kinds — int64, string, optional, vector, nested class, vector of classes, map of
-  classes — each with ANY list of validators in any order, built-in or custom), ALL documents, ALL values of
-  maxValidationErrors. `Spec.failing cls doc` is the declarative specification: the failing fields in load
+  fields of the modelled kinds — int64, string, optional, vector, REGISTERED ENUM (loaded by name), nested class,
+  vector of classes, map of classes — each with ANY list of validators in any order, built-in or custom), ALL
+  documents, ALL values of maxValidationErrors. The statements of `throws_iff`, `reports_exact`,
+  `reports_capped_below`, `reports_capped`, `passing_fields_loaded` did not change when the enum kind was added to
+  `Leaf`: they quantify over every class, so they now speak about classes with enum fields as well (examples at the
+  end). `enum_loaded_iff_registered_name` says when an enum field counts as loaded; the `throwError_*` theorems
+  carry the property over to MismatchedTypesPolicy::ThrowError (`loadClassT`). `Spec.failing cls doc` is the declarative specification: the failing fields in load
   order, each with the messages of its failing validators in declaration order.
 
   The character-level semantics of Email and PhoneNumber are in Props/C17Text.lean (imported here, so that
@@ -15,6 +19,7 @@
 -/
 import BSVerif.Valid.Lemmas
 import BSVerif.Generated.ValidConsts
+import BSVerif.Generated.ValidenumConsts
 import BSVerif.Props.C17Text      -- the text validators Email / PhoneNumber (model, Spec, theorems `BSVerif.Props.C17Text.*`)
 
 namespace BSVerif.Props.C17
@@ -190,6 +195,169 @@ theorem required_default_message :
     BSVerif.Generated.Valid.maxValidationErrorsDefault = 0 := by
   decide
 
+/-! ### enum fields -/
+
+/-- the string names an enumerator: some registered name equals it up to ASCII letter case -/
+def IsRegisteredName (s : List Nat) : Prop := ∃ n ∈ enumNames, Spec.foldCase n = Spec.foldCase s
+
+theorem registered_isSome_iff (s : List Nat) : (Spec.registered s).isSome = true ↔ IsRegisteredName s := by
+  simp only [Spec.registered, List.findIdx?_isSome, List.any_eq_true, beq_iff_eq, IsRegisteredName]
+
+/-- **an enum field counts as loaded iff the document holds a string that is a registered name** (up to letter
+    case): not for any other string, a number, an array, an object, nil or an absent key. -/
+theorem enum_loaded_iff_registered_name (v : Option Val) :
+    (loadLeaf .enm v).1 = true ↔ ∃ s, v = some (.sc (.str s)) ∧ IsRegisteredName s := by
+  rw [(loadLeaf_view .enm v).1]
+  cases v with
+  | none => simp [Spec.leafView]
+  | some v =>
+    cases v with
+    | arr l => simp [Spec.leafView]
+    | map l => simp [Spec.leafView]
+    | sc t =>
+      cases t <;> simp [Spec.leafView]
+      rename_i s
+      rw [← registered_isSome_iff]
+      cases Spec.registered s <;> simp
+
+/-- the same for the field of a class: the result of `Serialize(archive, key, enumMember)` — what `Required` and every
+    custom validator receive as `isLoaded` — is true iff the value under the key is a string naming an enumerator; and
+    that is also what the specification's occurrence of the field says -/
+theorem enum_field_loaded_iff (key : String) (vs : List Validator) (v : Option Val) :
+    ((loadField ⟨key, .leaf .enm, vs⟩ v).1 = true ↔ ∃ s, v = some (.sc (.str s)) ∧ IsRegisteredName s) ∧
+    (∃ seen loaded, Spec.fieldOccs ⟨key, .leaf .enm, vs⟩ v = [⟨"/" ++ key, vs, seen, loaded⟩] ∧
+      (loaded = true ↔ ∃ s, v = some (.sc (.str s)) ∧ IsRegisteredName s)) := by
+  refine ⟨by simpa [loadField] using enum_loaded_iff_registered_name v, ?_⟩
+  refine ⟨(Spec.leafView .enm v).2, (Spec.leafView .enm v).1, rfl, ?_⟩
+  rw [← (loadLeaf_view .enm v).1]
+  exact enum_loaded_iff_registered_name v
+
+/-- a field that is not loaded keeps the member's value (mismatched-and-skipped leaves the target untouched); a
+    loaded one holds the enumerator of the FIRST registered name that equals the string up to letter case -/
+theorem enum_not_loaded_untouched (v : Option Val) :
+    ((loadLeaf .enm v).1 = false → (loadLeaf .enm v).2 = .enm enumInitial) ∧
+    (∀ i, loadLeaf .enm v = (true, .enm i) →
+      ∃ s n, v = some (.sc (.str s)) ∧ enumNames[i]? = some n ∧ Spec.foldCase n = Spec.foldCase s ∧
+        ∀ j < i, ∀ m, enumNames[j]? = some m → Spec.foldCase m ≠ Spec.foldCase s) := by
+  cases v with
+  | none => simp [loadLeaf]
+  | some v =>
+    cases v with
+    | arr l => simp [loadLeaf]
+    | map l => simp [loadLeaf]
+    | sc t =>
+      cases t <;> simp [loadLeaf]
+      rename_i s
+      rw [findEnum_registered]
+      cases h : Spec.registered s with
+      | none => simp
+      | some k =>
+        simp only [reduceCtorEq, false_imp_iff, Prod.mk.injEq, true_and, LeafVal.enm.injEq, true_and]
+        intro i hi
+        subst hi
+        rw [Spec.registered, List.findIdx?_eq_some_iff_getElem] at h
+        obtain ⟨hlt, hp, hmin⟩ := h
+        refine ⟨enumNames[k], by simp, by simpa using hp, ?_⟩
+        intro j hj m hm
+        have hjl : j < enumNames.length := by omega
+        have := hmin j hj
+        rw [List.getElem?_eq_getElem hjl] at hm
+        simp only [Option.some.injEq] at hm
+        rw [← hm]
+        simpa using this
+
+/-- the code's table scan (size test, `tolower` character loop, first hit) and the specification's "equals a registered
+    name up to letter case" choose the same enumerator for every string -/
+theorem enum_lookup_eq_spec (s : List Nat) : findEnum enumNames 0 s = Spec.registered s := findEnum_registered s
+
+def upperAscii (s : List Nat) : List Nat := s.map fun c => if 97 ≤ c ∧ c ≤ 122 then c - 32 else c
+
+/-- the probes of harness/dump/dump_validenum.cpp: "", "Lo", "Lowx", "low ", "Lov", "Hig", "Highh", "L\xf6w" -/
+def unknownProbes : List (List Nat) :=
+  [[], [76, 111], [76, 111, 119, 120], [108, 111, 119, 32], [76, 111, 118], [72, 105, 103], [72, 105, 103, 104, 104], [76, 246, 119]]
+
+/-- the model's table is what the library's registry holds after the harness registration (names, order, values), the
+    member's initial value is the harness's, and the compiled conversion answers the probes as the model does: every
+    name as registered, upper-cased and lower-cased finds its enumerator; the unknown probes find nothing
+    (regenerated by the translator from harness/dump/dump_validenum.cpp) -/
+theorem enum_table_matches_code :
+    enumNames = BSVerif.Generated.Validenum.toneNames ∧
+    BSVerif.Generated.Validenum.toneCount = enumNames.length ∧
+    BSVerif.Generated.Validenum.toneValues = List.range enumNames.length ∧
+    enumInitial = BSVerif.Generated.Validenum.toneInitial ∧
+    enumNames.map (fun n => (findEnum enumNames 0 n).getD enumNames.length) = BSVerif.Generated.Validenum.toneFindExact ∧
+    enumNames.map (fun n => (findEnum enumNames 0 (upperAscii n)).getD enumNames.length) = BSVerif.Generated.Validenum.toneFindUpper ∧
+    enumNames.map (fun n => (findEnum enumNames 0 (Spec.foldCase n)).getD enumNames.length) = BSVerif.Generated.Validenum.toneFindLower ∧
+    unknownProbes.map (fun s => (findEnum enumNames 0 s).getD enumNames.length) = BSVerif.Generated.Validenum.toneFindUnknown := by
+  decide
+
+/-! ### MismatchedTypesPolicy::ThrowError -/
+
+/-- **no mismatched value: the ThrowError load is the Skip load** — so `throws_iff`, `reports_exact`,
+    `reports_capped_below`, `reports_capped`, `passing_fields_loaded` hold for it word for word; and the fields the
+    specification lists "before the first mismatch" are all the visited fields. -/
+theorem throwError_without_mismatch (cap : Nat) (cls : List Field) (doc : Val) (h : Spec.hasMismatch cls doc = false) :
+    loadClassT cap cls doc = .done (loadClass cap cls doc) ∧ Spec.failingBefore cls doc = Spec.failing cls doc := by
+  refine ⟨?_, failingBefore_clean cls doc h⟩
+  cases doc with
+  | sc t => cases t <;> first | rfl | simp [Spec.hasMismatch, Spec.occsT, Spec.isNil] at h
+  | arr l => simp [Spec.hasMismatch, Spec.occsT, Spec.isNil] at h
+  | map es =>
+    simp only [loadClassT, (rootCut_failingBefore cls es).2, h, Bool.false_eq_true, if_false]
+
+/-- **a mismatched value**: the load ends with SerializationException(MismatchedTypes) — unless maxValidationErrors = n > 0
+    was reached by the failing fields loaded BEFORE that value, in which case the capped ValidationException of
+    `reports_capped` is thrown (first n failing fields before the mismatch, the n-th with its first message). -/
+theorem throwError_mismatch (cap : Nat) (cls : List Field) (doc : Val) (h : Spec.hasMismatch cls doc = true)
+    (hnd : ((Spec.failingBefore cls doc).map (·.1)).Nodup) :
+    ((cap = 0 ∨ (Spec.failingBefore cls doc).length < cap) ∧ loadClassT cap cls doc = .mismatched) ∨
+    (0 < cap ∧ cap ≤ (Spec.failingBefore cls doc).length ∧
+      ∃ p msg rest, (Spec.failingBefore cls doc)[cap - 1]? = some (p, msg :: rest) ∧
+        loadClassT cap cls doc = .done (.validation ((Spec.failingBefore cls doc).take (cap - 1) ++ [(p, [msg])]) none)) := by
+  cases doc with
+  | sc t =>
+    cases t <;> first
+      | (simp [Spec.hasMismatch, Spec.occsT, Spec.isNil] at h; done)
+      | (left; refine ⟨?_, rfl⟩; simp [Spec.failingBefore, Spec.beforeMismatch, Spec.occsT, Spec.isNil, Spec.failingOf]; omega)
+  | arr l =>
+    left; refine ⟨?_, rfl⟩
+    simp [Spec.failingBefore, Spec.beforeMismatch, Spec.occsT, Spec.isNil, Spec.failingOf]; omega
+  | map es =>
+    obtain ⟨h1, h2⟩ := rootCut_failingBefore cls es
+    have hrun := run_failing cap (Spec.failingBefore cls (.map es)) [] (by simpa [paths] using hnd)
+      (failingOf_msgs_ne_nil _) (by simp; omega)
+    simp only [loadClassT, h2, h, if_true, h1]
+    by_cases hc : cap = 0 ∨ ([] : ErrMap).length + (Spec.failingBefore cls (.map es)).length < cap
+    · rw [if_pos hc] at hrun
+      left
+      exact ⟨by simpa using hc, by rw [hrun]⟩
+    · rw [if_neg hc] at hrun
+      simp only [List.nil_append, List.length_nil, Nat.sub_zero] at hrun
+      obtain ⟨p, msg, rest, e1, e2⟩ := hrun
+      right
+      refine ⟨by simp at hc; omega, by simp at hc; omega, p, msg, rest, e1, by rw [e2]⟩
+
+/-- with the default maxValidationErrors = 0 a mismatched value always ends the load with MismatchedTypes -/
+theorem throwError_mismatch_uncapped (cls : List Field) (doc : Val) (h : Spec.hasMismatch cls doc = true) :
+    loadClassT 0 cls doc = .mismatched := by
+  cases doc with
+  | sc t => cases t <;> first | rfl | simp [Spec.hasMismatch, Spec.occsT, Spec.isNil] at h
+  | arr l => rfl
+  | map es => simp only [loadClassT, (rootCut_failingBefore cls es).2, h, if_true, runEvents_zero]
+
+/-- whatever the cap: a document with a mismatched value is never loaded to its end under ThrowError — no `ok`, no
+    ValidationException of a completed load -/
+theorem throwError_never_ok_on_mismatch (cap : Nat) (cls : List Field) (doc : Val) (h : Spec.hasMismatch cls doc = true) :
+    loadClassT cap cls doc = .mismatched ∨ ∃ m, loadClassT cap cls doc = .done (.validation m none) := by
+  cases doc with
+  | sc t => cases t <;> first | (left; rfl) | simp [Spec.hasMismatch, Spec.occsT, Spec.isNil] at h
+  | arr l => left; rfl
+  | map es =>
+    simp only [loadClassT, (rootCut_failingBefore cls es).2, h, if_true]
+    cases runEvents cap [] (rootCut cls es).1 with
+    | error m => exact Or.inr ⟨m, rfl⟩
+    | ok m => exact Or.inl rfl
+
 /-! ### non-vacuity -/
 
 def exampleClass : List Field :=
@@ -208,5 +376,46 @@ example : ((Spec.failing exampleClass (.map exampleDoc)).map (·.1)).Nodup := by
 example : loadClass 2 exampleClass (.map exampleDoc) =
     .validation [("/i", ["Value must be between 1 and 10"]), ("/s", ["The minimum size of this field should be 2"])] none := by
   decide
+
+/-! ### non-vacuity: classes with enum fields -/
+
+/-- "e" : enum, Required + a custom validator that fails when the field is loaded and its value is odd;
+    "i" : int64, Required;  "n" : nested class with an enum field -/
+def enumClass : List Field :=
+  [⟨"e", .leaf .enm, [.required none, .custom (fun s l => l && s.int % 2 != 0) "odd"]⟩, ⟨"i", .leaf .int, [.required none]⟩,
+   ⟨"n", .obj [⟨"e", .enm, [.required (some "tone?")]⟩], []⟩]
+
+def key (c : Nat) : Val := .sc (.str [c])
+def strV (s : String) : Val := .sc (.str (s.toList.map Char.toNat))
+
+-- a registered name in another letter case is loaded: no validator fails, the object holds High (2)
+example : loadClass 0 enumClass (.map [(key 101, strV "hIGH"), (key 105, .sc (.int 7)), (key 110, .map [(key 101, strV "Low")])]) =
+    .ok [.leaf (.enm 2), .leaf (.int 7), .obj [.enm 0]] := by decide
+
+-- an unknown name ("Lo"), a number, nil, an absent key: not loaded — Required fails, the member keeps Mid (1), and the custom
+-- validator is told isLoaded = false (so "odd" is not reported although Mid is odd)
+example : loadClass 0 enumClass (.map [(key 101, strV "Lo"), (key 105, .sc (.int 7)), (key 110, .map [(key 101, .sc (.int 1))])]) =
+    .validation [("/e", ["This field is required"]), ("/n/e", ["tone?"])] (some [.leaf (.enm 1), .leaf (.int 7), .obj [.enm 1]]) := by decide
+
+example : Spec.failing enumClass (.map [(key 101, .sc .nil), (key 105, strV "x")]) =
+    [("/e", ["This field is required"]), ("/i", ["This field is required"])] := by decide
+
+-- a loaded odd value: the custom validator sees (Mid, isLoaded = true)
+example : loadClass 1 enumClass (.map [(key 101, strV "MID"), (key 110, .map [])]) = .validation [("/e", ["odd"])] none := by decide
+
+example : ∃ s, IsRegisteredName s ∧ s ∉ enumNames := ⟨[108, 79, 119], ⟨[76, 111, 119], by decide, by decide⟩, by decide⟩
+example : ¬ IsRegisteredName [76, 111] := by
+  intro ⟨n, hn, h⟩
+  revert n
+  decide
+
+-- ThrowError: the unknown name is a mismatched value; cap 0 → MismatchedTypes; the cap reached before it → ValidationException
+example : Spec.hasMismatch enumClass (.map [(key 105, strV "x"), (key 101, .sc .nil)]) = true := by decide
+example : loadClassT 0 enumClass (.map [(key 105, strV "x"), (key 101, .sc .nil)]) = .mismatched := by decide
+example : loadClassT 1 enumClass (.map [(key 105, strV "x"), (key 101, .sc .nil)]) =
+    .done (.validation [("/e", ["This field is required"])] none) := by decide
+example : loadClassT 0 enumClass (.map [(key 101, strV "Lo")]) = .mismatched := by decide
+example : Spec.hasMismatch enumClass (.map [(key 101, strV "low"), (key 105, .sc .nil)]) = false := by decide
+example : ((Spec.failingBefore enumClass (.map [(key 105, strV "x"), (key 101, .sc .nil)])).map (·.1)).Nodup := by decide
 
 end BSVerif.Props.C17
